@@ -152,6 +152,9 @@ def run(spec, module, cfg, workers=16, timeout=600, simulate=None, depth=None,
         elif 'Error: Action property' in out:
             m = re.search(r'Error: Action property (\S+) is violated', out)
             res.violated, res.kind = (m.group(1) if m else '?'), 'action'
+        elif re.search(r'Error: Temporal property (\S+) was violated', out):
+            m = re.search(r'Error: Temporal property (\S+) was violated', out)
+            res.violated, res.kind = m.group(1), 'temporal'
         elif 'Temporal properties were violated' in out:
             res.violated, res.kind = 'temporal', 'temporal'
         elif 'Error: Deadlock reached' in out:
@@ -170,8 +173,9 @@ def run(spec, module, cfg, workers=16, timeout=600, simulate=None, depth=None,
              (simulate and 'Error' not in out):
             res.ok = True
         else:
-            raise TLCError('TLC failed (rc=%s): %s\n%s'
-                           % (rc, ' '.join(cmd), out[-4000:]))
+            i = out.find('Error:')
+            raise TLCError('TLC failed (rc=%s): %s\n%s\n...\n%s'
+                           % (rc, ' '.join(cmd), out[i:i + 1500] if i >= 0 else '', out[-3000:]))
         return res
     finally:
         if own:
